@@ -61,7 +61,7 @@ fn run_case(rep: &mut Report, solver: Solver, prob: &IvpProblem, cfg: &Cfg, mode
     let kap = kappa(solver, prob.n);
     let implied_calls = kap * (pts_bound + 10.0);
     let budget = (20.0 * implied_calls) as u64;
-    let opts = Opts { budget, max_items: (20.0 * pts_bound) as usize + 100, mode, ..Default::default() };
+    let opts = Opts { budget, max_items: (20.0 * pts_bound) as usize + 100, mode, order: ((cfg.t1.to_bits() >> 7) % 6) as u8, ..Default::default() };
     let out = solve_real(solver, cfg, &prob.y0, prob, &opts);
     rep.eval();
     rep.count(&format!("{}/solves", sname), 1);
@@ -182,7 +182,7 @@ fn scaling_case(rep: &mut Report, solver: Solver, prob: &IvpProblem, t0: f64, sp
     for tol in [tol1, tol1 * 1e-3] {
         let dt_max = span / 6.0;
         let cfg = Cfg { t0, t1: t0 + span, dt_min: dt_max * 1e-9, dt_max, tol };
-        let opts = Opts { budget: 30_000_000, max_items: 3_000_000, mode: DimMode::Dynamic, ..Default::default() };
+        let opts = Opts { budget: 30_000_000, max_items: 3_000_000, mode: DimMode::Dynamic, order: ((cfg.t1.to_bits() >> 7) % 6) as u8, ..Default::default() };
         let out = solve_real(solver, &cfg, &prob.y0, prob, &opts);
         rep.eval();
         if !out.clean() {
